@@ -237,3 +237,47 @@ func Harness_C02_MessageDBReplace() {
 	zzsym.Assert(!accept || res.Outcome == AppendOutcomeDurable, "MessageDB: a replace fenced by the exact frontier with a valid suffix was refused")
 	zzsym.Observe("dbreplace", uint64(res.Outcome), leo, res.LastOffset, zzsym.B2U(err == nil))
 }
+
+// Harness_C02_MessageDBAppendPredecessor (quick): the production store refuses an exact append whose
+// predecessor does not match its tail in EVERY respect. Build a log of one proposal, then offer a
+// second proposal at the log end whose (PreviousTerm, PreviousDigest) is the tail's own, the tail's
+// term with another digest, the tail's digest with another term, or both different (digest bytes and
+// term symbolic): accepted as Durable exactly for the tail's own identity, otherwise refused with the
+// store unchanged - the per-replica half of "every replica's log is an unbroken predecessor chain".
+func Harness_C02_MessageDBAppendPredecessor() {
+	db, ok := c02OpenDB()
+	zzsym.Assume(ok)
+	m, built := c02DBBuild(db, 1)
+	zzsym.Assume(built)
+	zzsym.Assert(c02DBHolds(db, m), "MessageDB does not hold the built log")
+	tail := m.tail()
+	prevTerm, prevDigest := tail.LeaderTerm, tail.Digest
+	variant := zzsym.Choice("pred", 4)
+	if variant == 1 || variant == 3 {
+		prevDigest[0] = zzsym.U8("pred.digest0")
+		prevDigest[31] = zzsym.U8("pred.digest31")
+		zzsym.Assume(prevDigest != tail.Digest)
+	}
+	if variant >= 2 {
+		prevTerm = zzsym.U64("pred.term")
+		zzsym.Assume(prevTerm != tail.LeaderTerm)
+	}
+	base := m.leo()
+	sealed, entries, recs, sok := c02DBProposal("n", base, prevTerm, prevDigest, 9, 30, 1)
+	zzsym.Assume(sok)
+	res, err := db.st.AppendLeader(context.Background(), AppendLeaderRequest{
+		Records: recs, Committed: 0, ServerAllocatedMessageIDs: true, ExactBaseOffset: true, ExpectedBaseOffset: base, Proposal: sealed,
+	})
+	zzsym.Reach("messagedb-append-predecessor")
+	if variant == 0 {
+		zzsym.Reach("messagedb-append-chained")
+		zzsym.Assert(err == nil && res.Outcome == AppendOutcomeDurable, "MessageDB refused a proposal chained to its tail")
+		if err == nil && res.Outcome == AppendOutcomeDurable {
+			m.add(sealed, entries, recs)
+		}
+	} else {
+		zzsym.Reach("messagedb-append-unchained")
+		zzsym.Assert(err != nil || !res.Outcome.Durable(), "MessageDB appended a proposal whose predecessor term or digest is not its tail's (the log stops being a predecessor chain)")
+	}
+	zzsym.Assert(c02DBHolds(db, m), "MessageDB changed although the append was refused (or does not hold the appended proposal)")
+}
